@@ -308,33 +308,34 @@ macro "close_eff" : tactic => `(tactic| first
   | exact Eff.of_devices rfl rfl rfl
   | skip)
 
-theorem eff_of_advance {sys : Sys} {db : DB} {e : Bytes} {f : Nat} {kw : Bool} (h : sys.db.advanceFCntUp e f kw = some db) :
-    Eff sys { sys with db := db, acceptedUp := noteCounter sys.acceptedUp e f } := by
+theorem eff_of_advance {sys s' : Sys} {db : DB} {e : Bytes} {f : Nat} {kw : Bool} (h : sys.db.advanceFCntUp e f kw = some db)
+    (hdb : s'.db = db) (ha : s'.acceptedUp = noteCounter sys.acceptedUp e f) (hi : s'.issuedDn = sys.issuedDn) : Eff sys s' := by
   obtain ⟨hu, hd, hw⟩ := advance_views h
-  exact Eff.advance e f hw hu hd rfl rfl
+  exact Eff.advance e f hw (by rw [hdb]; exact hu) (by rw [hdb]; exact hd) ha hi
 
-theorem eff_of_next {sys : Sys} {db : DB} {e : Bytes} {f : Nat} (h : sys.db.nextFCntDn e = some (db, f)) :
-    Eff sys { sys with db := db, issuedDn := noteCounter sys.issuedDn e f } := by
+theorem eff_of_next {sys s' : Sys} {db : DB} {e : Bytes} {f : Nat} (h : sys.db.nextFCntDn e = some (db, f))
+    (hdb : s'.db = db) (ha : s'.acceptedUp = sys.acceptedUp) (hi : s'.issuedDn = noteCounter sys.issuedDn e f) : Eff sys s' := by
   obtain ⟨hd, hu, hw⟩ := next_views h
-  exact Eff.next e f hw hu hd rfl rfl
+  exact Eff.next e f hw (by rw [hdb]; exact hu) (by rw [hdb]; exact hd) ha hi
 
-theorem eff_of_updateDevice {sys : Sys} {db : DB} {d : Device} (h : sys.db.updateDevice d = some db) :
-    Eff sys { sys with db := db, acceptedUp := forget sys.acceptedUp d.eui, issuedDn := forget sys.issuedDn d.eui } := by
+theorem eff_of_updateDevice {sys s' : Sys} {db : DB} {d : Device} (h : sys.db.updateDevice d = some db)
+    (hdb : s'.db = db) (ha : s'.acceptedUp = forget sys.acceptedUp d.eui) (hi : s'.issuedDn = forget sys.issuedDn d.eui) : Eff sys s' := by
   obtain ⟨hu, hd⟩ := updateDevice_views h
-  exact Eff.reset d.eui hu hd rfl rfl
+  exact Eff.reset d.eui (by rw [hdb]; exact hu) (by rw [hdb]; exact hd) ha hi
 
-theorem eff_of_updateState {sys : Sys} {db : DB} {d : Device} (h : sys.db.updateState d = some db) :
-    Eff sys { sys with db := db, acceptedUp := forget sys.acceptedUp d.eui, issuedDn := forget sys.issuedDn d.eui } := by
+theorem eff_of_updateState {sys s' : Sys} {db : DB} {d : Device} (h : sys.db.updateState d = some db)
+    (hdb : s'.db = db) (ha : s'.acceptedUp = forget sys.acceptedUp d.eui) (hi : s'.issuedDn = forget sys.issuedDn d.eui) : Eff sys s' := by
   obtain ⟨hu, hd⟩ := updateState_views h
-  exact Eff.reset d.eui hu hd rfl rfl
+  exact Eff.reset d.eui (by rw [hdb]; exact hu) (by rw [hdb]; exact hd) ha hi
 
-theorem eff_of_addNonce {sys : Sys} {db : DB} {e : Bytes} {n : Nat} (h : sys.db.addNonce e n = some db) :
-    Eff sys { sys with db := db } := by
+theorem eff_of_addNonce {sys s' : Sys} {db : DB} {e : Bytes} {n : Nat} (h : sys.db.addNonce e n = some db)
+    (hdb : s'.db = db) (ha : s'.acceptedUp = sys.acceptedUp) (hi : s'.issuedDn = sys.issuedDn) : Eff sys s' := by
   obtain ⟨hu, hd⟩ := addNonce_views h
-  exact Eff.same hu hd rfl rfl
+  exact Eff.same (by rw [hdb]; exact hu) (by rw [hdb]; exact hd) ha hi
 
-theorem eff_of_addInbox {sys : Sys} {db : DB} {r : InRow} (h : sys.db.addInbox r = some db) :
-    Eff sys { sys with db := db } := Eff.of_devices (addInbox_devices h) rfl rfl
+theorem eff_of_addInbox {sys s' : Sys} {db : DB} {r : InRow} (h : sys.db.addInbox r = some db)
+    (hdb : s'.db = db) (ha : s'.acceptedUp = sys.acceptedUp) (hi : s'.issuedDn = sys.issuedDn) : Eff sys s' :=
+  Eff.of_devices (by rw [hdb]; exact addInbox_devices h) ha hi
 
 theorem eff_stepUplink (E : Spec.Rfc4493.BlockFn) (sys : Sys) (s : UpSt) (fault : Bool) :
     Eff sys (stepUplink E sys s fault).1 := by
@@ -343,9 +344,9 @@ theorem eff_stepUplink (E : Spec.Rfc4493.BlockFn) (sys : Sys) (s : UpSt) (fault 
   split
   all_goals (repeat' split)
   all_goals close_eff
-  · rename_i h; exact eff_of_advance h
-  · rename_i h; exact eff_of_advance h
-  · rename_i h; exact eff_of_addInbox h
+  · rename_i h; exact eff_of_advance h rfl rfl rfl
+  · rename_i h; exact eff_of_advance h rfl rfl rfl
+  · rename_i h; exact eff_of_addInbox h rfl rfl rfl
 
 theorem eff_stepJoin (E : Spec.Rfc4493.BlockFn) (cfg : Config) (sys : Sys) (s : JoinSt) (fault : Bool) :
     Eff sys (stepJoin E cfg sys s fault).1 := by
@@ -354,9 +355,9 @@ theorem eff_stepJoin (E : Spec.Rfc4493.BlockFn) (cfg : Config) (sys : Sys) (s : 
   split
   all_goals (repeat' split)
   all_goals close_eff
-  · rename_i h; exact eff_of_addNonce h
-  · rename_i h _; have := eff_of_updateDevice h; exact this
-  · rename_i h _; have := eff_of_updateDevice h; exact this
+  · rename_i h; exact eff_of_addNonce h rfl rfl rfl
+  · rename_i h _; exact eff_of_updateDevice h rfl rfl rfl
+  · rename_i h _; exact eff_of_updateDevice h rfl rfl rfl
 
 theorem eff_stepEncoder (E D : Spec.Rfc4493.BlockFn) (sys : Sys) (pc : Nat) (p : PHY) (c : Ctx) (b : Bytes) (fault : Bool) :
     Eff sys (stepEncoder E D sys pc p c b fault).1 := by
@@ -364,10 +365,12 @@ theorem eff_stepEncoder (E D : Spec.Rfc4493.BlockFn) (sys : Sys) (pc : Nat) (p :
   simp only []
   repeat' split
   all_goals close_eff
-  · rename_i h _ _ _; have := eff_of_updateState h; exact this
-  · rename_i h _ _; have := eff_of_updateState h; exact this
-  · rename_i h _ _ _; exact eff_of_next h
-  · rename_i h _ _; exact eff_of_next h
+  all_goals first
+    | (rename_i h _ _ _; exact eff_of_updateState h rfl rfl rfl)
+    | (rename_i h _ _; exact eff_of_updateState h rfl rfl rfl)
+    | (rename_i h _ _ _ _; exact eff_of_next h rfl rfl rfl)
+    | (rename_i h _ _ _; exact eff_of_next h rfl rfl rfl)
+    | (rename_i h _ _; exact eff_of_next h rfl rfl rfl)
 
 theorem Eff.congr {s s' s'' : Sys} (h : Eff s s') (hdb : s''.db = s'.db) (ha : s''.acceptedUp = s'.acceptedUp)
     (hi : s''.issuedDn = s'.issuedDn) : Eff s s'' := by
